@@ -72,7 +72,7 @@ def default_suffix(i):
 @st.composite
 def _case(draw, tier):
     steps = []
-    n = draw(st.integers(3, 10))
+    n = draw(st.sampled_from([3, 5, 7, 9, 10]))  # (sampled_from: not subject to hypothesis' small-first size ramp)
     from .c05 import flag_sets
 
     cats = flag_sets()
@@ -350,6 +350,6 @@ def check_api(case):
 
 
 ARMS = [
-    HypArm("histories", lambda tier: _case(tier), check, budget={"quick": 40, "thorough": 2500}, shrink=False),
+    HypArm("histories", lambda tier: _case(tier), check, budget={"quick": 96, "thorough": 2500}, shrink=False),
     HypArm("api", lambda tier: _api_case(tier), check_api, budget={"quick": 800, "thorough": 20000}),
 ]
